@@ -343,13 +343,14 @@ def make_classifier(name, rs, opt=0, n_jobs=None):
         from sktime.classification.compose import ColumnEnsembleClassifier
         from sktime.classification.interval_based import (
             RandomIntervalSpectralForest, TimeSeriesForestClassifier)
-        second = (TimeSeriesForestClassifier(n_estimators=3, random_state=rs + 11) if not opt
+        second = (TimeSeriesForestClassifier(n_estimators=3, random_state=rs + 11) if opt != 1
                   else RandomIntervalSpectralForest(n_estimators=3, min_interval=8, acf_lag=6,
                                                     acf_min_values=2, random_state=rs + 11))
-        return ColumnEnsembleClassifier(estimators=[
-            ("m0", TimeSeriesForestClassifier(n_estimators=4, random_state=rs), [0]),
-            ("m1", second, [1]),
-        ])
+        ests = [("m0", TimeSeriesForestClassifier(n_estimators=4, random_state=rs), [0]),
+                ("m1", second, [1])]
+        if opt == 2:  # an entry that is skipped at fit
+            ests.append(("m2", "drop", [0]))
+        return ColumnEnsembleClassifier(estimators=ests)
     raise KeyError(name)
 
 
